@@ -8,7 +8,7 @@ import lightworks as lw
 from lightworks import emulator as emu
 
 PV = {1: 0.3, 2: 1.1, 3: 0.3 + 2e-7}        # 3: a step from 1 that changes every matrix element by less than 1e-8 + 1e-5 |u|
-INPUTS = {1: [1, 0], 2: [1, 1]}
+INPUTS = {1: [1, 0], 2: [1, 1], 3: [0, 0]}       # 3: the vacuum (with circuit A, C, D: no photon at all)
 BRIGHT = {1: 1.0, 2: 0.6}
 BACKENDS = {1: "permanent", 2: "slos"}
 PURITY = {1: 1.0, 2: 0.9}
@@ -45,7 +45,7 @@ class World:
         self.aps.add(0, (0, 1))
 
     def edit(self, c):
-        self.circ[c].bs(0, 1, reflectivity=0.3)
+        self.circ[c].bs(0, 1, reflectivity=0.3, loss=0.1)       # the edit also adds a loss element: U_full grows
 
     def mutate_ps(self):
         self.n_mut += 1
